@@ -25,7 +25,23 @@ def wideBp2 (x y base a : Nat) : String :=
     let p2 : Int := Int.tdiv ((ai - 2) * (ai + 1)) 2 - Int.tdiv ((b - 2) * (b + 1)) 2 + bsum
     s!"B={bsum} P2={p2}"
 
+/-! `segpi_rel <base> <low0> tok…`: the answers of a `SegmentedPiTable` walk (`segpi` op: `l:h` = init(l, h), a number = lookup) at
+positions ≥ low0 far beyond the sieve oracle, recomputed as `base + #primes in (low0 − 1, x]` with the PROVED window sieve; `base = π(low0 − 1)`
+comes from the implementation's 64-bit `pi`. -/
+def segpiRel (base low0 : Nat) (toks : List String) : String :=
+  let qs := toks.filterMap fun t => if t.contains ':' then none else t.toNat?
+  if qs.any (· < low0) then "ERR:domain" else
+  let a := low0 - 1
+  let ds := qs.map (· - a)
+  let incs := windowDeltasWith wheelBase a ds
+  " ".intercalate (incs.map fun d => toString (base + d))
+
 def wideOps : String → Option (List String → String)
+  | "segpi_rel" => some fun a => match a with
+    | b :: l :: toks => (match b.toNat?, l.toNat? with
+      | some base, some low0 => segpiRel base low0 toks
+      | _, _ => "ERR:proto")
+    | _ => "ERR:proto"
   | "wide_bp2_chk" => some fun a => match a.mapM String.toNat? with
     | some [x, y, base, pa] => wideBp2 x y base pa
     | _ => "ERR:proto"
